@@ -170,11 +170,14 @@ pub fn fresh_equivalence(script: &Script, tr: &Trace, flavor: Flavor, watchdog: 
             cmp!("per-key charges", costs(x), costs(y));
             cmp!("used", x.snap.used, y.snap.used);
             cmp!("len()", x.snap.len, y.snap.len);
-            cmp!("metrics (hits, misses, keys added/updated/evicted, cost added/evicted, sets dropped/rejected)", x.metrics.map(|m| m[..9].to_vec()), y.metrics.map(|m| m[..9].to_vec()));
+            // [hits, misses, keys_added, keys_updated, keys_evicted, cost_added, cost_evicted, sets_dropped, sets_rejected, ..]:
+            // whether an expired entry was reclaimed and its key admitted anew, or updated in place, moves counts
+            // between added / evicted / updated; the balances and the refusals must agree
+            let balance = |m: Option<[u64; 11]>| m.map(|m| vec![m[0], m[1], m[2].wrapping_sub(m[4]), m[5].wrapping_sub(m[6]), m[7], m[8]]);
+            cmp!("metrics (hits, misses, keys added - evicted, cost added - evicted, sets dropped, sets rejected)", balance(x.metrics), balance(y.metrics));
             cmp!("ratio()", x.ratio.map(|r| r.to_bits()), y.ratio.map(|r| r.to_bits()));
-            // (the samples themselves are lifetimes up to the reclaim, whose instant is free: only their number)
-            let count = |h: &Option<String>| h.as_ref().and_then(|h| h.lines().find_map(|l| l.trim().strip_prefix("Count: ").map(|r| r.trim().to_string())));
-            cmp!("number of life-expectancy samples", count(&x.hist), count(&y.hist));
+            // (life-expectancy samples are lifetimes up to a reclaim whose instant - and, when the key is re-inserted
+            // first, whose very occurrence - is free: not compared)
         }
     }
     !stop
